@@ -261,7 +261,10 @@ func (g *GoBackNConn) start() {
 
 	g.resendTicker = time.NewTicker(g.timeoutManager.GetResendTimeout())
 
-	g.wg.Add(1)
+	// Both goroutines are added to the wait group up front. If they were
+	// added one at a time, the first goroutine could exit and call Close,
+	// and thereby wg.Wait, before the second one is added.
+	g.wg.Add(2)
 	go func() {
 		defer func() {
 			g.wg.Done()
@@ -279,7 +282,6 @@ func (g *GoBackNConn) start() {
 		g.log.Debugf("receivePacketsForever stopped")
 	}()
 
-	g.wg.Add(1)
 	go func() {
 		defer func() {
 			g.wg.Done()
